@@ -379,3 +379,17 @@ def nodes_from_gfa_text(text):
         elif f[0] == "L":
             links.append((f[1], f[2], f[3], f[4]))
     return nodes, links
+
+
+def masked_fields(tags, keep_cg=True, drop=("ds:Z:",)):
+    """Optional fields with the CIGAR value masked (it may be rewritten but keeps its place) and exempt tags dropped."""
+    out = []
+    for t in tags:
+        if any(t.startswith(d) for d in drop):
+            continue
+        if t.startswith("cg:Z:"):
+            if keep_cg:
+                out.append("cg:Z:<cigar>")
+            continue
+        out.append(t)
+    return out
